@@ -39,7 +39,7 @@ TRUSTED = [
     "extraction (Require Extraction, ExtrOcamlBasic only: bool/option/unit/list/prod/sumbool/sumor + andb/orb inlined; Z, positive kept inductive), harness/driver.ml, ocamlfind ocamlopt; a sample of the same cases is re-evaluated by the kernel (vm_compute)",
 ]
 
-FLOAT_THEOREMS = ("C17_nwin_float64_exact", "C17_float64_ceil_div_exact")
+FLOAT_THEOREMS = ("C17_nwin_float64_exact", "C17_float64_ceil_div_exact", "C17_splicing_hann_sums_to_one")
 KIND_NAMES = ["firstlast", "firstlast_valid", "firstlast_splicing", "slice", "slice_array"]
 
 # constructor-argument representations: name -> (constructor, class, unsigned bits or 0, max exactly held)
@@ -57,6 +57,81 @@ REPRS = {
     "float64": (np.float64, "exact", 0, 2 ** 52),
     "float32": (np.float32, "exact", 0, 2 ** 24),
 }
+
+
+class Unbounded(Exception):
+    """a generator of the implementation yielded more items than any correct one can"""
+
+
+class CaseTimeout(BaseException):
+    """one case ran longer than CASE_TIMEOUT_S (raised from SIGALRM inside a worker)"""
+
+
+CASE_TIMEOUT_S = 15
+MAX_TIMEOUTS_PER_CHUNK = 2     # then the rest of the chunk is skipped (and reported)
+
+
+def guarded(fn, *a, **kw):
+    """Call into the implementation: (True, value) or (False, exception).  The implementation may raise anything
+    (SystemExit and KeyboardInterrupt included) or not come back: a per-case alarm turns a hang into CaseTimeout."""
+    import signal
+
+    def on_alarm(signum, frame):
+        raise CaseTimeout("no result after %d s" % CASE_TIMEOUT_S)
+    old = signal.signal(signal.SIGALRM, on_alarm)
+    signal.setitimer(signal.ITIMER_REAL, CASE_TIMEOUT_S)
+    try:
+        return True, fn(*a, **kw)
+    except BaseException as e:
+        return False, e
+    finally:
+        signal.setitimer(signal.ITIMER_REAL, 0)
+        signal.signal(signal.SIGALRM, old)
+
+
+def why(e):
+    if isinstance(e, CaseTimeout):
+        return "WindowGenerator did not come back within %d s" % CASE_TIMEOUT_S
+    if isinstance(e, Unbounded):
+        return "WindowGenerator: %s" % e
+    return "WindowGenerator raised %r" % (e,)
+
+
+def bounded(gen, cap, what):
+    """iterate at most cap items of an implementation generator; a correct one stops by itself well before"""
+    n = 0
+    for x in gen:
+        n += 1
+        if n > cap:
+            raise Unbounded("%s did not stop after %d items" % (what, cap))
+        yield x
+
+
+def ints(tup, n):
+    """a yielded tuple of exactly n integers -> python ints (anything else is an error of the implementation)"""
+    tup = tuple(tup)
+    if len(tup) != n:
+        raise ValueError("generator yielded %d values instead of %d: %r" % (len(tup), n, tup))
+    return tuple(int(x) for x in tup)
+
+
+def canon_ts(raw):
+    """wg.tscale(1.0) -> (twice the values as ints or None when it is not a finite 1-D numeric sequence,
+    the doubled values are whole numbers, it is a 1-D float ndarray)"""
+    try:
+        a = np.asarray(raw, dtype=float)
+    except (TypeError, ValueError):
+        return None, False, False
+    if a.ndim != 1 or not np.all(np.isfinite(a)):
+        return None, False, False
+    a2 = a * 2
+    return [int(round(float(x))) for x in a2], bool(np.all(a2 == np.round(a2))), \
+        isinstance(raw, np.ndarray) and raw.dtype == np.float64
+
+
+def win_cap(ns, nswin, ov):
+    """more windows than this cannot be right: announced-by-formula count + margin"""
+    return max(0, -((-(ns - nswin)) // max(1, nswin - ov))) + 8
 
 
 def make_wg(ns, nswin, ov, rep="int", which="all"):
@@ -107,20 +182,20 @@ def splice_sum_ok(ns, tuples):
 def impl_observe(ns, nswin, ov, with_splice, rep="int", which="all", interleave=True):
     """Run the real WindowGenerator; everything converted to python ints."""
     wg = make_wg(ns, nswin, ov, rep, which)
+    cap = win_cap(ns, nswin, ov)
     obs = {"ns": ns, "nswin": nswin, "ov": ov, "nwin": int(wg.nwin), "rep": rep, "which": which}
+    attrs0 = (wg.ns, wg.nswin, wg.overlap, wg.nwin)
     obs["attrs_ok"] = (type(wg.ns), type(wg.nswin), type(wg.overlap)) == (int, int, int) and \
         (wg.ns, wg.nswin, wg.overlap) == (ns, nswin, ov) and wg.iw is None
-    fl = [(int(a), int(b)) for a, b in wg.firstlast]
+    fl = [ints(x, 2) for x in bounded(wg.firstlast, cap, "firstlast")]
     obs["fl"] = fl
     obs["iw_after_firstlast"] = wg.iw
     try:
-        obs["valid"] = [tuple(int(x) for x in t) for t in wg.firstlast_valid]
+        obs["valid"] = [ints(t, 4) for t in bounded(wg.firstlast_valid, cap, "firstlast_valid")]
     except AssertionError:
         obs["valid"] = None
-    ts = wg.tscale(1.0) * 2
-    obs["ts"] = [int(round(float(t))) for t in ts]
-    obs["ts_exact"] = bool(np.all(ts == np.round(ts)))
-    obs["slices"] = [(int(s.start), int(s.stop)) for s in wg.slice]
+    obs["ts"], obs["ts_exact"], obs["ts_ndarray"] = canon_ts(wg.tscale(1.0))
+    obs["slices"] = [(int(s.start), int(s.stop)) if s.step is None else (-1, -1) for s in bounded(wg.slice, cap, "slice")]
     inter = []          # (what, property predicate violated?)
     if with_splice:
         w = ramp(ov)
@@ -128,9 +203,13 @@ def impl_observe(ns, nswin, ov, with_splice, rep="int", which="all", interleave=
         tot = np.zeros(ns)
         decodable = True
         kept = []       # the yielded tuples themselves (materialised), next to a copy taken at yield time
-        for first, last, amp in wg.firstlast_splicing:
-            codes = decode_amp(amp, w) if np.shape(amp) == (last - first,) else [-2] * (last - first)
-            decodable = decodable and -2 not in codes and amp.dtype == np.float64
+        for first, last, amp in bounded(wg.firstlast_splicing, cap, "firstlast_splicing"):
+            first, last = int(first), int(last)
+            well_formed = isinstance(amp, np.ndarray) and amp.shape == (last - first,) and amp.dtype == np.float64
+            codes = decode_amp(amp, w) if well_formed else [-2] * max(1, last - first)
+            decodable = decodable and -2 not in codes
+            if not well_formed:
+                amp = np.full(max(0, last - first), np.nan)      # counts as "does not sum to one" below
             tot[first:last] += amp
             sp.append((int(first), int(last), codes))
             kept.append((first, last, amp, np.array(amp, copy=True)))
@@ -142,7 +221,7 @@ def impl_observe(ns, nswin, ov, with_splice, rep="int", which="all", interleave=
         obs["splice_distinct_buffers"] = not any(np.shares_memory(kept[i][2], kept[j][2])
                                                  for i in range(len(kept)) for j in range(i + 1, min(len(kept), i + 3)))
         obs["splice_sum_ok_materialised"] = splice_sum_ok(ns, [(f, l, a) for f, l, a, _ in kept])
-        lst = list(make_wg(ns, nswin, ov, rep, which).firstlast_splicing)
+        lst = list(bounded(make_wg(ns, nswin, ov, rep, which).firstlast_splicing, cap, "firstlast_splicing"))
         obs["splice_list_equal"] = len(lst) == len(kept) and all(
             (int(f), int(l)) == (int(f2), int(l2)) and np.array_equal(a, c)
             for (f, l, a), (f2, l2, _, c) in zip(lst, kept))
@@ -153,12 +232,12 @@ def impl_observe(ns, nswin, ov, with_splice, rep="int", which="all", interleave=
         exp_ts = [a + b - 1 for a, b in fl]
         # two views of the same kind
         wg2 = make_wg(ns, nswin, ov, rep, which)
-        got = [(tuple(map(int, a)), tuple(map(int, b))) for a, b in zip(wg2.firstlast, wg2.firstlast)]
+        got = [(tuple(map(int, a)), tuple(map(int, b))) for a, b in zip(bounded(wg2.firstlast, cap, 'firstlast'), wg2.firstlast)]
         if [g[0] for g in got] != fl or [g[1] for g in got] != fl:
             inter.append(("zip(wg.firstlast, wg.firstlast) differs from wg.firstlast", True))
         if obs["valid"] is not None:
             wg2 = make_wg(ns, nswin, ov, rep, which)
-            got = [(tuple(int(x) for x in v), (int(s.start), int(s.stop))) for v, s in zip(wg2.firstlast_valid, wg2.slice)]
+            got = [(tuple(int(x) for x in v), (int(s.start), int(s.stop))) for v, s in zip(bounded(wg2.firstlast_valid, cap, 'firstlast_valid'), wg2.slice)]
             gv = [g[0] for g in got]
             if gv != obs["valid"] or [g[1] for g in got] != fl:
                 inter.append(("firstlast_valid / slice consumed as zip(wg.firstlast_valid, wg.slice) differ from the "
@@ -166,10 +245,9 @@ def impl_observe(ns, nswin, ov, with_splice, rep="int", which="all", interleave=
             wg2 = make_wg(ns, nswin, ov, rep, which)
             pts = {0, 1, nw // 2, nw - 2, nw - 1}
             gv, ts_ok, iw_ok = [], True, True
-            for i, v in enumerate(wg2.firstlast_valid):
+            for i, v in enumerate(bounded(wg2.firstlast_valid, cap, 'firstlast_valid')):
                 if i in pts:
-                    t = wg2.tscale(1.0) * 2
-                    ts_ok = ts_ok and [int(round(float(x))) for x in t] == exp_ts
+                    ts_ok = ts_ok and canon_ts(wg2.tscale(1.0))[0] == exp_ts
                     iw_ok = iw_ok and wg2.iw == nw - 1
                 gv.append(tuple(int(x) for x in v))
             if gv != obs["valid"] or not ts_ok:
@@ -181,7 +259,7 @@ def impl_observe(ns, nswin, ov, with_splice, rep="int", which="all", interleave=
         if with_splice:
             wg2 = make_wg(ns, nswin, ov, rep, which)
             other = wg2.firstlast_valid if obs["valid"] is not None else wg2.slice
-            got = [(a, b) for a, b in zip(other, wg2.firstlast_splicing)]
+            got = [(a, b) for a, b in zip(bounded(other, cap, 'generator'), wg2.firstlast_splicing)]
             ga = [(int(f), int(l), a) for _, (f, l, a) in got]
             same = len(ga) == len(kept) and all((f, l) == (int(f2), int(l2)) and np.array_equal(a, c)
                                                 for (f, l, a), (f2, l2, _, c) in zip(ga, kept))
@@ -193,6 +271,7 @@ def impl_observe(ns, nswin, ov, with_splice, rep="int", which="all", interleave=
             if not same:
                 inter.append(("firstlast_splicing consumed next to another view differs from firstlast_splicing alone",
                               2 * ov <= nswin and not splice_sum_ok(ns, ga)))
+    obs["attrs_kept"] = (wg.ns, wg.nswin, wg.overlap, wg.nwin) == attrs0
     return obs
 
 
@@ -238,6 +317,10 @@ def oracle(obs):
 def soft_checks(obs):
     """Differences from the model's view of the object that are not (shown to be) property violations."""
     out = []
+    if obs["ts"] is not None and not obs.get("ts_ndarray", True):
+        out.append("tscale did not return a 1-D float64 ndarray")
+    if not obs.get("attrs_kept", True):
+        out.append("using the generators changed wg.ns / wg.nswin / wg.overlap / wg.nwin")
     if not obs["attrs_ok"]:
         out.append("wg.ns / wg.nswin / wg.overlap are not the int values of the arguments, or iw is not None after __init__")
     if obs["iw_after_firstlast"] != len(obs["fl"]) - 1:
@@ -264,7 +347,7 @@ def enc_obs(obs):
         out += [0]
     else:
         out += [1, len(obs["valid"])] + [x for t in obs["valid"] for x in t]
-    out += [1, len(obs["ts"])] + obs["ts"]
+    out += [0] if obs["ts"] is None else [1, len(obs["ts"])] + obs["ts"]
     if "splice" in obs:
         out += [1, len(obs["splice"])]
         for f, l, codes in obs["splice"]:
@@ -281,6 +364,8 @@ def enc_inp(obs):
 # ---------------------------------------------------------------------------------------------
 def run_schedule_impl(ns, nswin, ov, kinds, events):
     """Returns (flat trace as Run.v mode 2, per-view outputs, problems[(what, is_property_violation)])."""
+    # a firstlast that does not stop would make tscale() (which cannot be bounded from outside) run forever
+    fl_ref = [ints(x, 2) for x in bounded(make_wg(ns, nswin, ov).firstlast, win_cap(ns, nswin, ov), "firstlast")]
     wg = make_wg(ns, nswin, ov)
     sig = np.arange(ns)
     gens = [wg.slice_array(sig) if k == 4 else getattr(wg, KIND_NAMES[k]) for k in kinds]
@@ -292,10 +377,8 @@ def run_schedule_impl(ns, nswin, ov, kinds, events):
     iw_ahead = False    # a view's own position and wg.iw differ right after that view yielded
     for e in events:
         if e < 0:
-            ts = wg.tscale(1.0) * 2
-            out = [7, len(ts)] + [int(round(float(t))) for t in ts]
-            if not np.all(ts == np.round(ts)):
-                out = [7, -1]
+            ts, exact, _ = canon_ts(wg.tscale(1.0))
+            out = [7, len(ts)] + ts if ts is not None and exact else [7, -1]
         else:
             k = kinds[e]
             try:
@@ -306,16 +389,22 @@ def run_schedule_impl(ns, nswin, ov, kinds, events):
                 out = [1]
             else:
                 if k == 0:
-                    out = [2, int(r[0]), int(r[1])]
+                    out = [2] + list(ints(r, 2))
                 elif k == 1:
-                    out = [3] + [int(x) for x in r]
+                    out = [3] + list(ints(r, 4))
                 elif k == 2:
                     f, l, amp = r
-                    codes = decode_amp(amp, w) if np.shape(amp) == (l - f,) else [-2]
-                    out = [4, int(f), int(l), len(codes)] + codes
-                    if not any(np.shares_memory(amp, a) for _, _, a, _, _ in amps):
+                    f, l = int(f), int(l)
+                    if not (isinstance(amp, np.ndarray) and amp.shape == (l - f,) and amp.dtype == np.float64):
+                        out = [4, f, l, 1, -2]        # not a float64 vector of the window's length
+                        amp = np.full(max(0, l - f), np.nan)
+                    else:
+                        codes = decode_amp(amp, w)
+                        out = [4, f, l, len(codes)] + codes
+                    if not any(np.shares_memory(amp, a) for _, _, a, _, _ in amps) and \
+                            not np.shares_memory(amp, w) and not np.shares_memory(amp, sig):
                         nclasses += 1
-                    amps.append((int(f), int(l), amp, np.array(amp, copy=True), e))
+                    amps.append((f, l, amp, np.array(amp, copy=True), e))
                 elif k == 3:
                     out = [5, int(r.start), int(r.stop)] if r.step is None else [5, -1, -1]
                 else:
@@ -329,17 +418,16 @@ def run_schedule_impl(ns, nswin, ov, kinds, events):
         iw = wg.iw
         trace += out + [-1 if iw is None else int(iw), nclasses]
     problems = [("iw_ahead", None)] if iw_ahead else []
+    if not np.array_equal(sig, np.arange(ns)):
+        problems.append(("slice_array modified the array it was given", False))
     # materialised amplitudes: unchanged since they were yielded, and (view run to its end) they sum to one
     if not all(np.array_equal(a, c) for _, _, a, c, _ in amps):
         problems.append(("an amplitude vector changed after a later window was requested", False))
-    fl_ref = None
     for vi, k in enumerate(kinds):
         outs = per_view[vi]
         done = events.count(vi) > len(outs) and not (k == 1 and ov % 2)
         if not done:
             continue
-        if fl_ref is None:
-            fl_ref = [(int(a), int(b)) for a, b in make_wg(ns, nswin, ov).firstlast]
         if k == 1 and not valid_partition_ok(ns, [tuple(o[1:]) for o in outs], fl_ref):
             problems.append(("valid sub-windows of a view consumed next to other views do not partition the signal", True))
         if k == 2 and 2 * ov <= nswin and not splice_sum_ok(ns, [(f, l, a) for f, l, a, _, v in amps if v == vi]):
@@ -410,8 +498,8 @@ def gen_triples(ctx):
     if ctx.thorough():
         triples += box
     else:
-        off = rng.randrange(37)
-        triples += box[off::37]
+        off = rng.randrange(61)
+        triples += box[off::61]
     # boundary rows always: ns around overlap / window / multiples of the stride
     for w in (1, 2, 3, 4, 7, 10, 12, 16, 33, 64):
         for o in sorted({0, 1, 2, w // 2 - 1, w // 2, w // 2 + 1, w - 2, w - 1}):
@@ -422,7 +510,7 @@ def gen_triples(ctx):
                     if ns >= 1:
                         boundary.append((ns, w, o))
     triples += boundary
-    nrand = 20000 if ctx.thorough() else 2500
+    nrand = 20000 if ctx.thorough() else 2000
     for _ in range(nrand):
         kind = rng.random()
         if kind < 0.4:       # realistic: long recordings, big windows, at most a few thousand windows
@@ -474,14 +562,26 @@ def _work(job):
     def bump(k, v=1):
         st[k] = st.get(k, 0) + int(v)
     inputs, outputs, descr = [], [], []
+    ntimeouts = [0]
+
+    def give_up(exc, d):
+        """repeated hangs: do not spend the budget on the rest of the chunk"""
+        if isinstance(exc, CaseTimeout):
+            ntimeouts[0] += 1
+            if ntimeouts[0] == MAX_TIMEOUTS_PER_CHUNK:
+                res["disagrees"].append(("%d cases of this chunk did not come back; the rest of the chunk was skipped"
+                                         % MAX_TIMEOUTS_PER_CHUNK, d))
+        return ntimeouts[0] >= MAX_TIMEOUTS_PER_CHUNK
     if kind == "triple":
         for (ns, w, o) in items:
+            if ntimeouts[0] >= MAX_TIMEOUTS_PER_CHUNK:
+                break
             n_est = max(0, -((-(ns - w)) // (w - o))) + 1
             with_splice = ns <= 3000 and n_est * min(ns, w) <= 40000
-            try:
-                obs = impl_observe(ns, w, o, with_splice)
-            except Exception as e:      # the property says these calls succeed on the whole domain
-                res["fails"].append(("WindowGenerator raised %r" % (e,), tri(ns, w, o), {"kind": "exception"}))
+            ok, obs = guarded(impl_observe, ns, w, o, with_splice)
+            if not ok:                  # the property says these calls succeed on the whole domain
+                res["fails"].append((why(obs), tri(ns, w, o), {"kind": "exception"}))
+                give_up(obs, tri(ns, w, o))
                 continue
             res["n"] += 1
             inputs.append(enc_inp(obs))
@@ -505,12 +605,15 @@ def _work(job):
                 res["samples"].append({"ns": ns, "nswin": w, "overlap": o, "firstlast": obs["fl"][:4], "nwin": obs["nwin"]})
     elif kind == "sched":
         for (ns, w, o, kinds, ev, pat) in items:
+            if ntimeouts[0] >= MAX_TIMEOUTS_PER_CHUNK:
+                break
             d = dict(tri(ns, w, o), mode="schedule", kinds=kinds, events=ev)
-            try:
-                trace, per_view, problems = run_schedule_impl(ns, w, o, kinds, ev)
-            except Exception as e:
-                res["fails"].append(("WindowGenerator raised %r during an interleaved schedule" % (e,), d, {"kind": "exception"}))
+            ok, r3 = guarded(run_schedule_impl, ns, w, o, kinds, ev)
+            if not ok:
+                res["fails"].append((why(r3) + " during an interleaved schedule", d, {"kind": "exception"}))
+                give_up(r3, d)
                 continue
+            trace, per_view, problems = r3
             if problems and problems[0][0] == "iw_ahead":
                 problems = problems[1:]
                 bump("iw_ahead_of_reader")
@@ -537,21 +640,27 @@ def _work(job):
                 res["samples"].append(d)
     else:   # representations of the constructor arguments
         for (ns, w, o) in items:
-            b = impl_observe(ns, w, o, False, interleave=False)
+            if ntimeouts[0] >= MAX_TIMEOUTS_PER_CHUNK:
+                break
+            ok, b = guarded(impl_observe, ns, w, o, False, interleave=False)
+            if not ok:
+                res["fails"].append((why(b), tri(ns, w, o), {"kind": "exception"}))
+                give_up(b, tri(ns, w, o))
+                continue
             bump("triples_with_ns_lt_nswin", ns < w)
             for rep, (conv, rclass, ubits, _) in REPRS.items():
                 if rep == "int":
                     continue
                 for which in ("all", "ns"):
-                    if not rep_applicable(rep, which, ns, w, o):
+                    if not rep_applicable(rep, which, ns, w, o) or ntimeouts[0] >= MAX_TIMEOUTS_PER_CHUNK:
                         continue
                     d = dict(tri(ns, w, o), mode="repr", repr=rep, which=which)
                     tags_base = {"repr_class": rclass, "ns_lt_nswin": ns < w}
-                    try:
-                        obs = impl_observe(ns, w, o, False, rep, which, interleave=False)
-                    except Exception as e:
-                        res["fails"].append(("WindowGenerator raised %r for arguments given as %s" % (e, rep), d,
+                    ok, obs = guarded(impl_observe, ns, w, o, False, rep, which, interleave=False)
+                    if not ok:
+                        res["fails"].append((why(obs) + " for arguments given as %s" % rep, d,
                                              dict(tags_base, kind="exception")))
+                        give_up(obs, d)
                         continue
                     res["n"] += 1
                     bump(rep)
@@ -586,9 +695,63 @@ def _work(job):
     return res
 
 
+def _init_worker():
+    import resource
+    lim = 6 << 30          # a runaway allocation in the implementation becomes a MemoryError of that case
+    try:
+        resource.setrlimit(resource.RLIMIT_AS, (lim, lim))
+    except (ValueError, OSError):
+        pass
+
+
+def _descr_of(job):
+    kind, _, items = job
+    it = items[0]
+    d = tri(it[0], it[1], it[2])
+    if kind == "sched":
+        d.update(mode="schedule", kinds=it[3], events=it[4])
+    d["note"] = "first input of the chunk of %d %s cases the worker was evaluating" % (len(items), kind)
+    return d
+
+
+def run_jobs(ctx, jobs, nproc):
+    """Evaluate the chunks in worker processes.  A worker that dies (os._exit, segfault) or never answers is reported
+    against the chunk it was working on; it does not take the check down."""
+    import multiprocessing
+    from concurrent.futures import ProcessPoolExecutor, TimeoutError as FTimeout
+    from concurrent.futures.process import BrokenProcessPool
+    results = [None] * len(jobs)
+    ex = ProcessPoolExecutor(max_workers=nproc, mp_context=multiprocessing.get_context("fork"), initializer=_init_worker)
+    futs = [ex.submit(_work, j) for j in jobs]
+    lost = 0
+    budget = 2400 if ctx.thorough() else 900
+    try:
+        for i, f in enumerate(futs):
+            try:
+                results[i] = f.result(timeout=max(30, budget - ctx.elapsed()))
+            except (BrokenProcessPool, FTimeout) as e:
+                lost += 1
+                if lost <= 3:
+                    ctx.disagree("a worker process %s while running the implementation" % (
+                        "did not answer in time" if isinstance(e, FTimeout) else "died"), _descr_of(jobs[i]))
+                if isinstance(e, FTimeout):
+                    break
+    finally:
+        procs = list(getattr(ex, "_processes", {}).values())
+        ex.shutdown(wait=False, cancel_futures=True)
+        if lost:
+            for p in procs:
+                try:
+                    p.kill()
+                except Exception:
+                    pass
+    if lost:
+        ctx.coverage["chunks_lost"] = lost
+    return results
+
+
 def run(ctx):
     global _EX
-    import multiprocessing
     # only the two float64 theorems may use the standard library's classical-real axioms (through Flocq)
     common.proof_obligations(ctx, whitelist=sorted(common.STDLIB_AXIOMS))
     for name, ax in ctx.theorems.items():
@@ -599,14 +762,14 @@ def run(ctx):
     triples, boundary = gen_triples(ctx)
     triples = list(dict.fromkeys(triples))
     scheds, sseen = [], set()
-    for s in gen_schedules(ctx, 30000 if ctx.thorough() else 3500):
+    for s in gen_schedules(ctx, 30000 if ctx.thorough() else 3000):
         key = (s[0], s[1], s[2], tuple(s[3]), tuple(s[4]))
         if key not in sseen and s[4]:
             sseen.add(key)
             scheds.append(s)
     # representations: boundary rows + a sample of the triples with at most 200 windows
     rest = [t for t in triples if max(0, -((-(t[0] - t[1])) // (t[1] - t[2]))) + 1 <= 200]
-    pool_t = list(dict.fromkeys(boundary + rng.sample(rest, min(len(rest), 6000 if ctx.thorough() else 700))))
+    pool_t = list(dict.fromkeys(boundary + rng.sample(rest, min(len(rest), 6000 if ctx.thorough() else 500))))
 
     jobs = []
     for kind, items, size in (("triple", triples, 1500), ("sched", scheds, 400), ("repr", pool_t, 60)):
@@ -618,14 +781,15 @@ def run(ctx):
         ctx.broken_proofs.append({"theorem": "extraction of coq/C17/Run.v", "why": str(e)[-1500:]})
         return common.finish(ctx, TRUSTED, rule="model could not be built", samples=[], evaluations=0, distinct_nontrivial=0)
     nproc = max(2, min(common.NCPU - 2, 12, len(jobs)))
-    with multiprocessing.get_context("fork").Pool(nproc) as pool:
-        results = pool.map(_work, jobs, chunksize=1)
+    results = run_jobs(ctx, jobs, nproc)
 
     fam = {"triple": {}, "sched": {}, "repr": {}}
     counts = {"triple": 0, "sched": 0, "repr": 0}
     nontrivial = nmodel = 0
     keep, samples = [], {"triple": [], "sched": [], "repr": []}
     for (kind, _, _), r in zip(jobs, results):
+        if r is None:
+            continue
         for what, d, tags in r["fails"]:
             ctx.fail(what, d, tags)
         for what, d in r["disagrees"]:
@@ -651,7 +815,7 @@ def run(ctx):
     return common.finish(
         ctx, TRUSTED,
         rule="(1) (ns, nswin, overlap) triples: the box ns<=400 x nswin<=64 x every overlap (all of it in "
-             "thorough, a 1-in-37 stride plus boundary rows in quick) and random large triples; each is run "
+             "thorough, a 1-in-61 stride plus boundary rows in quick) and random large triples; each is run "
              "through the real WindowGenerator (nwin, firstlast, firstlast_valid, slice, tscale, "
              "firstlast_splicing streamed and materialised) alone and as zip(...) of two views of one object / "
              "tscale() inside the loop, and through the Coq model; (2) random schedules of next()/tscale() over "
@@ -670,7 +834,7 @@ def run(ctx):
                      ])
 
 
-def replay(ctx, data):
+def _replay(ctx, data):
     inp = data.get("input") or (data.get("correspondence_disagreements") or [{}])[0].get("input")
     if not inp:
         print(json.dumps(data, indent=1)[:3000])
@@ -701,7 +865,7 @@ def replay(ctx, data):
             same = all(obs[k] == ref[k] for k in ("nwin", "fl", "valid", "ts", "slices"))
             return 1 if (bad or ids or not same) else 0
         obs = impl_observe(ns, w, o, ns <= 5000)
-    except Exception as e:
+    except BaseException as e:
         print("implementation raised:", repr(e))
         return 1
     bad = oracle(obs)
@@ -712,3 +876,11 @@ def replay(ctx, data):
     ids = common.coq_mismatches(PROP, HEADER, [common.flat_cases_term(0, enc_inp(obs), enc_obs(obs))])
     print("kernel-evaluated model agrees with implementation:", not ids)
     return 1 if (bad or soft or ids) else 0
+
+
+def replay(ctx, data):
+    ok, rc = guarded(_replay, ctx, data)
+    if not ok:
+        print("implementation:", why(rc))
+        return 1
+    return rc
